@@ -12,9 +12,14 @@ from decimal import Decimal, getcontext
 # ---- time grids ---------------------------------------------------------------------------------
 
 
+# uneven grids whose FIRST (or last) gap equals the mean gap - a grid that "looks regular" to a test that
+# only compares the first gap with the average - and grids with other gap sizes than the alphabet below
+SPECIAL_GRIDS = [(2000, 2010, 2015, 2030), (2000, 2003, 2004, 2009), (2000, 2002, 2003, 2006), (2000, 2001, 2006, 2009), (2000, 2004, 2005, 2009, 2020)]
+
+
 def grids(n_items=(3, 4, 5), steps=(1, 2, 5), origin=2000):
-    """all strictly increasing integer grids with the given step alphabet"""
-    out = []
+    """all strictly increasing integer grids with the given step alphabet (+ the special grids)"""
+    out = list(SPECIAL_GRIDS)
     for n in n_items:
         for st in itertools.product(steps, repeat=n - 1):
             g = [origin]
@@ -36,6 +41,7 @@ QUICK_GRIDS = [
     (2000, 2002, 2004), (2000, 2005, 2010, 2015), (2000, 2002, 2004, 2006, 2008),
     (2000, 2001, 2003), (2000, 2005, 2006), (2000, 2001, 2003, 2008), (2000, 2005, 2007, 2008),
     (2000, 2001, 2003, 2008, 2009), (2000, 2005, 2006, 2008, 2013), (2000, 2002, 2003, 2008, 2010),
+    (2000, 2010, 2015, 2030), (2000, 2003, 2004, 2009),
 ]
 
 
@@ -181,7 +187,9 @@ def param_value(base, name, cidx, lab_idx, varies):
     given as a list of positions: -1 = time, k = k-th extra dim)."""
     v = base
     for pos in varies:
-        if pos == -1:
+        if pos == -2:  # NON-monotone over the cohorts: every other cohort is short-lived (a younger cohort can be gone while an older one is still there)
+            v *= 1.0 if cidx % 2 == 0 else 0.3
+        elif pos == -1:
             v += 0.25 * cidx
         else:
             v += (0.5 if pos == 0 else 0.125) * (1 + lab_idx[pos]) if name in ("mean", "weibull_scale") else (0.0625 * (pos + 1)) * (1 + lab_idx[pos])
